@@ -36,6 +36,13 @@
 (*     SUBJECT TO THE SAME CAP CHECK (one file or dropped) and the task    *)
 (*     ends (EvStopIdle / EvStopWrite / EvStopDrop); from then on          *)
 (*     write_event fails on the closed queue until the process restarts.   *)
+(*     Fault dimension (FlushFaults): json_write_to_file creates           *)
+(*     <nanos>.tmp, serialises into it and renames it; when the write      *)
+(*     fails after File::create (disk full) the temp file STAYS -- an      *)
+(*     entry of the directory that is not an event file and that nobody    *)
+(*     removes (the reader takes *.json only).  misc_helpers::get_files    *)
+(*     counts every regular file, so such leftovers use up the cap: the    *)
+(*     cap is a bound on ALL entries of the directory (EvEntries).         *)
 (*  RuleDumps   proxy_agent/src/proxy/authorization_rules.rs write_all     *)
 (*     list AuthorizationRules_*.json sorted by name (= by time, names     *)
 (*     carry the UTC time), remove the (count - max + 1) first when        *)
@@ -63,6 +70,8 @@ CONSTANTS Machine,      \* "log" | "event" | "dumps" | "all"
           MaxPush,      \* events pushed at once 1..MaxPush
           QueueBound,   \* model bound on the in-memory queue (the real queue holds 1000)
           PreEv,        \* directory pre-filled with 0..PreEv files
+          FlushFaults,  \* BOOLEAN: a flush may fail after creating its temp file (disk full)
+          PreTmp,       \* directory pre-filled with 0..PreTmp leftover temp files as well (FlushFaults only)
           \* --- rule dumps
           MaxDumps,     \* max_file_count of write_all
           PreDumps,     \* directory pre-filled with 0..PreDumps dumps
@@ -78,7 +87,8 @@ VARIABLES
   debt,      \* ghost (CrashPoints / RollKills): kills in the middle of archive_file since the last completed roll
   rollFails, \* environment: fs::rename of the current file fails at present (appending still works)
   \* event directory
-  evFiles,   \* number of files in the event directory
+  evFiles,   \* number of event files (<nanos>.json) in the event directory
+  evTmp,     \* number of leftover temp files (<nanos>.tmp) in the event directory
   evQueue,   \* events waiting in the in-memory queue
   evRun,     \* the event logger task is running (FALSE after stop() was handled, until the process restarts)
   evLegal,   \* ghost: the directory found at start held <= Cap files
@@ -89,7 +99,7 @@ VARIABLES
   dWritten   \* ghost: write_all ran at least once
 
 logVars  == <<arch, cur, lw, rolled, logLegal, debt, rollFails>>
-evVars   == <<evFiles, evQueue, evRun, evLegal>>
+evVars   == <<evFiles, evTmp, evQueue, evRun, evLegal>>
 dumpVars == <<dumps, nextId, dLegal, dWritten>>
 vars     == <<logVars, evVars, dumpVars>>
 
@@ -135,8 +145,9 @@ LogInit ==
 
 EvInit ==
   /\ IF On("event") THEN evFiles \in 0..PreEv ELSE evFiles = 0
+  /\ IF On("event") /\ FlushFaults THEN evTmp \in 0..PreTmp ELSE evTmp = 0
   /\ evQueue = 0 /\ evRun = TRUE
-  /\ evLegal = (evFiles <= Cap)
+  /\ evLegal = (evFiles + evTmp <= Cap)
 
 DumpInit ==
   /\ \E n \in 0..(IF On("dumps") THEN PreDumps ELSE 0) :
@@ -201,7 +212,7 @@ LogKilledInRoll(j) ==
   /\ debt' = debt + 1
   /\ UNCHANGED <<logLegal, rollFails>>
   /\ evQueue' = 0 /\ evRun' = TRUE
-  /\ UNCHANGED <<evFiles, evLegal, dumpVars>>
+  /\ UNCHANGED <<evFiles, evTmp, evLegal, dumpVars>>
 
 \* Crash points (only with CrashPoints): the process is killed between two system calls of one write.
 \* after open_file / after the re-creation that follows a roll, before the append
@@ -231,10 +242,11 @@ LogNext == \/ \E n \in 1..MaxWrite : \/ LogWriteNoRoll(n)
 \* EventDir.
 
 EvOnly == On("event") /\ UNCHANGED <<logVars, dumpVars>>
+EvEntries == evFiles + evTmp     \* misc_helpers::get_files(&event_dir).len(): every regular file, whatever its name
 EvPush(k) ==                 \* write_event x k (the queue is bounded; the model stays below the bound)
   /\ EvOnly /\ evRun /\ evQueue + k <= QueueBound
   /\ evQueue' = evQueue + k
-  /\ UNCHANGED <<evFiles, evRun, evLegal>>
+  /\ UNCHANGED <<evFiles, evTmp, evRun, evLegal>>
 
 EvPushClosed(k) ==           \* write_event after the stop: EVENT_QUEUE.push fails (closed), the events are discarded
   /\ EvOnly /\ ~evRun /\ k \in 1..MaxPush
@@ -245,14 +257,19 @@ EvTickIdle ==                \* `if EVENT_QUEUE.is_empty() { continue; }`
   /\ UNCHANGED evVars
 
 EvTickWrite ==               \* drained, files < cap: ONE new file <nanos>.json
-  /\ EvOnly /\ evRun /\ evQueue > 0 /\ evFiles < Cap
+  /\ EvOnly /\ evRun /\ evQueue > 0 /\ EvEntries < Cap
   /\ evFiles' = evFiles + 1 /\ evQueue' = 0
-  /\ UNCHANGED <<evRun, evLegal>>
+  /\ UNCHANGED <<evTmp, evRun, evLegal>>
+
+EvTickFails ==               \* drained, entries < cap, File::create(<nanos>.tmp) ok, the write fails: the temp file stays
+  /\ EvOnly /\ FlushFaults /\ evRun /\ evQueue > 0 /\ EvEntries < Cap
+  /\ evTmp' = evTmp + 1 /\ evQueue' = 0
+  /\ UNCHANGED <<evFiles, evRun, evLegal>>
 
 EvTickDrop ==                \* drained, `files.len() >= max_event_file_count`: the events are dropped
-  /\ EvOnly /\ evRun /\ evQueue > 0 /\ evFiles >= Cap
+  /\ EvOnly /\ evRun /\ evQueue > 0 /\ EvEntries >= Cap
   /\ evQueue' = 0
-  /\ UNCHANGED <<evFiles, evRun, evLegal>>
+  /\ UNCHANGED <<evFiles, evTmp, evRun, evLegal>>
 
 EvTickStopped ==             \* time passes after the task has ended: nothing
   /\ EvOnly /\ ~evRun
@@ -264,28 +281,33 @@ EvTickStopped ==             \* time passes after the task has ended: nothing
 EvStopIdle ==
   /\ EvOnly /\ evRun /\ evQueue = 0
   /\ evRun' = FALSE
-  /\ UNCHANGED <<evFiles, evQueue, evLegal>>
+  /\ UNCHANGED <<evFiles, evTmp, evQueue, evLegal>>
 
 EvStopWrite ==               \* the last events go to ONE new file: only below the cap
-  /\ EvOnly /\ evRun /\ evQueue > 0 /\ evFiles < Cap
+  /\ EvOnly /\ evRun /\ evQueue > 0 /\ EvEntries < Cap
   /\ evFiles' = evFiles + 1 /\ evQueue' = 0 /\ evRun' = FALSE
-  /\ UNCHANGED evLegal
+  /\ UNCHANGED <<evTmp, evLegal>>
+
+EvStopFails ==               \* the last flush fails after creating its temp file
+  /\ EvOnly /\ FlushFaults /\ evRun /\ evQueue > 0 /\ EvEntries < Cap
+  /\ evTmp' = evTmp + 1 /\ evQueue' = 0 /\ evRun' = FALSE
+  /\ UNCHANGED <<evFiles, evLegal>>
 
 EvStopDrop ==                \* at or above the cap the last events are dropped like any others
-  /\ EvOnly /\ evRun /\ evQueue > 0 /\ evFiles >= Cap
+  /\ EvOnly /\ evRun /\ evQueue > 0 /\ EvEntries >= Cap
   /\ evQueue' = 0 /\ evRun' = FALSE
-  /\ UNCHANGED <<evFiles, evLegal>>
+  /\ UNCHANGED <<evFiles, evTmp, evLegal>>
 
 EvStop == EvStopIdle \/ EvStopWrite \/ EvStopDrop
 
-EvReaderRemove(k) ==         \* the telemetry reader sent k files and removed them
+EvReaderRemove(k) ==         \* the telemetry reader sent k event files and removed them (it never touches temp files)
   /\ EvOnly /\ k \in 1..evFiles
   /\ evFiles' = evFiles - k
-  /\ UNCHANGED <<evQueue, evRun, evLegal>>
+  /\ UNCHANGED <<evTmp, evQueue, evRun, evLegal>>
 
 EvNext == \/ \E k \in 1..MaxPush : EvPush(k) \/ EvPushClosed(k)
-          \/ EvTickIdle \/ EvTickWrite \/ EvTickDrop \/ EvTickStopped
-          \/ EvStop
+          \/ EvTickIdle \/ EvTickWrite \/ EvTickDrop \/ EvTickStopped \/ EvTickFails
+          \/ EvStop \/ EvStopFails
           \/ \E k \in 1..(PreEv + 1) : EvReaderRemove(k)
 
 -----------------------------------------------------------------------------
@@ -312,7 +334,7 @@ DumpNext == DumpWriteKeep \/ DumpWriteTrim
 \* is still there is the environment's business (LogFaultOff may happen at any time).
 Restart ==
   /\ evQueue' = 0 /\ evRun' = TRUE
-  /\ UNCHANGED <<logVars, evFiles, evLegal, dumpVars>>
+  /\ UNCHANGED <<logVars, evFiles, evTmp, evLegal, dumpVars>>
 
 Next == LogNext \/ EvNext \/ DumpNext \/ Restart
 
@@ -330,7 +352,7 @@ Bounded == nextId <= MaxIds + 1 /\ debt <= 2
 
 TypeOK == /\ arch \in Seq(Nat) /\ cur \in Int /\ cur >= -1 /\ lw \in Nat
           /\ rollFails \in BOOLEAN /\ (rollFails => RollFaults /\ cur >= 0)
-          /\ evFiles \in Nat /\ evQueue \in 0..QueueBound /\ evRun \in BOOLEAN
+          /\ evFiles \in Nat /\ evTmp \in Nat /\ evQueue \in 0..QueueBound /\ evRun \in BOOLEAN
           /\ dumps \in Seq(Nat) /\ nextId \in Nat
 
 \* C19, rolling log, for directories an earlier run with the same settings can have left without being killed in a roll
@@ -352,11 +374,12 @@ LogSizeStrict == cur >= 0 => cur < Limit + lw
 \* while the roll cannot be done, a file at or over the limit takes nothing more (the write is refused)
 LogNoGrowthWhileRollFails == [][(rollFails /\ rollFails' /\ cur >= Limit) => (cur' = cur /\ arch' = arch)]_vars
 \* event directory
-EvCountBound == evLegal => P_EvCount(evFiles, Cap)
-EvDropAtCap == [][P_EvNoGrowthAtCap(evFiles, evFiles', Cap)]_vars
-EvOneFilePerTick == [][evFiles' <= evFiles + 1]_vars
+\* "the event directory never holds more files than its cap": ALL entries count, event files and leftovers alike
+EvCountBound == evLegal => P_EvCount(evFiles + evTmp, Cap)
+EvDropAtCap == [][P_EvNoGrowthAtCap(evFiles + evTmp, evFiles' + evTmp', Cap)]_vars
+EvOneFilePerTick == [][evFiles' + evTmp' <= evFiles + evTmp + 1]_vars
 \* once the task has ended the logger adds nothing (only the reader changes the directory) and holds no events
-EvStoppedIsQuiet == [][(~evRun /\ ~evRun') => evFiles' <= evFiles]_vars
+EvStoppedIsQuiet == [][(~evRun /\ ~evRun') => evFiles' + evTmp' <= evFiles + evTmp]_vars
 EvStoppedQueueEmpty == ~evRun => evQueue = 0
 \* rule dumps
 DumpCountBound == (dLegal \/ dWritten) => P_DumpCount(dumps, MaxDumps)
